@@ -119,6 +119,55 @@ pub fn run(ctx: &mut Ctx) {
         }
     }
 
+    // --- B2. a FOREIGN READER: the harness plays the reader with its own ephemeral key whose COSE_Key is valid but not
+    //     encoded the way this crate would encode it (other key order, a further parameter, non-minimal heads).  The
+    //     session keys are computed here from the bytes ON THE WIRE (p256 ECDH, HKDF-SHA-256, own transcript bytes);
+    //     the device must open the request encrypted under them, and hold exactly those keys (also per the model).
+    let n_fr = if ctx.thorough { 40 } else { 10 };
+    for i in 0..n_fr {
+        use hkdf::Hkdf; use sha2::{Digest, Sha256};
+        let (name, drm, srm) = &configs[rng.gen_range(0..configs.len())];
+        let Ok(init) = device::SessionManagerInit::initialise(docs(), drm.clone(), srm.clone()) else { continue };
+        let (engaged, qr) = init.qr_engagement().unwrap();
+        let eng = base64::decode_config(qr.strip_prefix("mdoc:").unwrap(), base64::URL_SAFE_NO_PAD).unwrap();
+        let eng_v = sess::b64_to_value(&engaged.stringify().unwrap());
+        let scalar: Vec<u8> = sess::vget(&eng_v, "e_device_key").and_then(|v| v.as_array()).unwrap().iter().map(|x| i128::from(x.as_integer().unwrap()) as u8).collect();
+        let dev_pub = p256::SecretKey::from_slice(&scalar).unwrap().public_key();
+        let rsk = p256::SecretKey::random(&mut rng); let rpt = rsk.public_key().to_encoded_point(false);
+        let mut entries = vec![(iv(1), iv(2)), (iv(-1), iv(1)), (iv(-2), b(rpt.x().unwrap())), (iv(-3), b(rpt.y().unwrap()))];
+        let form = i % 5;
+        if form == 1 || form == 3 { entries.reverse(); }
+        if form == 2 || form == 3 { entries.insert(1, (iv(3), iv(-7))); }
+        let style = if form == 4 { 1 + (i % 7) as u8 } else { 0 };
+        let mut erk = vec![]; if style == 0 { erk = to_bytes(&Value::Map(entries.clone())); } else { enc_foreign(&Value::Map(entries.clone()), style, &mut erk); }
+        // keys from the wire bytes
+        let z = p256::ecdh::diffie_hellman(rsk.to_nonzero_scalar(), dev_pub.as_affine());
+        let transcript = to_bytes(&Value::Tag(24, Box::new(b(&to_bytes(&Value::Array(vec![Value::Tag(24, Box::new(b(&eng))), Value::Tag(24, Box::new(b(&erk))), Value::Null]))))));
+        let salt = Sha256::digest(&transcript);
+        let hk = Hkdf::<Sha256>::new(Some(salt.as_slice()), z.raw_secret_bytes().as_slice());
+        let (mut skr, mut skd) = ([0u8; 32], [0u8; 32]); hk.expand(b"SKReader", &mut skr).unwrap(); hk.expand(b"SKDevice", &mut skd).unwrap();
+        let req = isomdl::definitions::device_request::DeviceRequest { version: "1.0".into(), doc_requests: isomdl::definitions::helpers::NonEmptyVec::new(isomdl::definitions::device_request::DocRequest {
+            items_request: isomdl::definitions::helpers::Tag24::new(isomdl::definitions::device_request::ItemsRequest { doc_type: MDL.into(), namespaces: sess::simple_namespaces(&["family_name"]), request_info: None }).unwrap(), reader_auth: None }) };
+        let ct = sess::aes_enc(&skr, &sess::iv_bytes(true, 1), &cbor::to_vec(&req).unwrap());
+        let est = to_bytes(&Value::Map(vec![(Value::Text("eReaderKey".into()), Value::Tag(24, Box::new(b(&erk)))), (Value::Text("data".into()), b(&ct))]));
+        let form_name = ["library order", "reversed map", "extra alg parameter", "reversed with alg", "foreign heads"][form];
+        let case = serde_json::json!({"config": name, "reader_key_form": form_name, "msg_hex": hex::encode(&est)});
+        let Ok(se) = cbor::from_slice::<SessionEstablishment>(&est) else { ctx.emit.line("spec", "spec:foreign-reader:accepted", "spec.eq undecodable accepted".into(), "true".into(), case); continue };
+        let r = guarded(std::panic::AssertUnwindSafe(move || engaged.process_session_establishment(se, TrustAnchorRegistry::default()).map(|(d, o)| (d.stringify().unwrap(), o.errors.contains_key("decryption_errors"))).map_err(|e| e.to_string())));
+        match r {
+            Ok(Ok((st, decryption_error))) => {
+                let st: String = st;
+                let (dr, dd) = keys_of(&st);
+                ctx.emit.line("spec", "spec:foreign-reader:request-opened", format!("spec.eq {} false", decryption_error), "true".into(), case.clone());
+                ctx.emit.line("spec", "spec:foreign-reader:device-keys-are-the-wire-keys", format!("spec.eq {dr}{dd} {}{}", hex::encode(skr), hex::encode(skd)), "true".into(), case.clone());
+                let op = format!("kd.session {} {} {null_hex} {}", hex::encode(&eng), hex::encode(&erk), hex::encode(&scalar));
+                ctx.emit.line("spec", "spec:foreign-reader:device-keys", format!("spec.eqmodel ok_{dr}_{dd} {op}"), "true".into(), case.clone());
+            }
+            Ok(Err(e)) => ctx.emit.line("spec", "spec:foreign-reader:accepted", format!("spec.eq rejected:{} accepted", e.replace(' ', "_")), "true".into(), case),
+            Err(_) => ctx.emit.line("spec", "spec:foreign-reader:accepted", "spec.eq panic accepted".into(), "true".into(), case),
+        }
+    }
+
     // --- C. stored handovers other than QR on the device, and derive_session_key on arbitrary transcripts
     let handovers: Vec<(&str, Value)> = vec![("qr", Value::Null), ("nfc-select-only", Value::Array(vec![b(&[1, 2, 3]), Value::Null])), ("nfc-both", Value::Array(vec![b(&[9; 40]), b(&[7; 3])])),
         ("nfc-empty", Value::Array(vec![b(&[]), b(&[])])), ("oid4vp", Value::Array(vec![Value::Text("a".into()), Value::Text("b".into())]))];
